@@ -70,6 +70,7 @@ pub fn exec(case: &SerCase) -> RunOut {
         Err(_) => {
             // a value that cannot be constructed is not a value of the type: C02/C03/C08 own construction
             out.count("construction_failed", 1);
+            out.count(&format!("construction_failed.{}", case.spec.kind_name()), 1);
             out.digest = 3;
             return out;
         }
